@@ -26,15 +26,14 @@ Theorem c15_remove_safe : forall sc o h num o' r h',
 Proof. exact remove_safe. Qed.
 Print Assumptions c15_remove_safe.
 
-(* the setters: success means the element was replaced; on failure the list is either untouched or has
-   lost only the element being replaced (finding F37: remove happens before the allocation of the new one) *)
-Theorem c15_set_partial : forall sc o h num data o' r h',
+(* the setters are failure-atomic: success means the element was replaced; on any failure the stored list is unchanged *)
+Theorem c15_set_atomic : forall sc o h num data o' r h',
   tags_inv (o_tags o) -> ptr_inv o h -> wf_tag (num, data) ->
   sk_set_tag sc o num data h = Done (o', r, h') ->
   (r = 0 /\ set_tag (o_tags o) num data = Done (o_tags o', 0)) \/
-  (r < 0 /\ (o_tags o' = o_tags o \/ exists t1, remove_tag (o_tags o) num = Done (t1, 0) /\ o_tags o' = t1)).
-Proof. exact set_partial. Qed.
-Print Assumptions c15_set_partial.
+  (r < 0 /\ o_tags o' = o_tags o).
+Proof. exact set_atomic. Qed.
+Print Assumptions c15_set_atomic.
 
 (* action details: a failed or refused extension keeps what was stored *)
 Theorem c15_detail_reported : forall sc d data h d' r h', 0 <= d_len d ->
